@@ -187,6 +187,22 @@ def build() -> Check:
         ("_overflow_queue", "put"): {c_col},
         ("_overflow_queue", "get"): {c_col, c_cbf},
     }
+    # a private helper that is only ever called from an owner belongs to that owner (the consumer may factor its drain loops out)
+    from sa.common import self_method_calls
+    sc5 = prog.cls("state", "ExecutionState")
+    callers5: dict[str, set[str]] = {}
+    for mname5, m5 in sc5.methods.items():
+        for _, callee in self_method_calls(m5.node):
+            callers5.setdefault(callee, set()).add(f"state.py:ExecutionState.{mname5}")
+    changed = True
+    while changed:
+        changed = False
+        for key5, allowed5 in owners.items():
+            for callee, cs in callers5.items():
+                c5 = f"state.py:ExecutionState.{callee}"
+                if c5 not in allowed5 and callee.startswith("_") and cs and cs <= allowed5:
+                    allowed5.add(c5)
+                    changed = True
     n_sites = 0
     for fi in prog.functions.values():
         if isinstance(fi.node, ast.Lambda):
@@ -297,6 +313,45 @@ def build() -> Check:
             bad_sz.append(f"the size counted for an update is {t.value.key()[:160]}: not the byte length of the JSON text of its complete wire dictionary")
     ck.floor("size_paths", n_sz, 1)
     ck.ob("R4.size-is-serialized-wire-form", fn_construct(size_fn), not bad_sz, bad_sz[0] if bad_sz else f"{n_sz} path(s)")
+    # R6 the consumer can leave its loop in two ways: after a failed call (judged above and by C06) and because it was told to stop. In both cases
+    # nobody reads the queues any more, so (a) a flag the producers look at must be raised and (b) whoever already waits in a queue must be
+    # released - otherwise a thread that outlives the handler (orphaned branch, resume timer) blocks for ever on a checkpoint that is never sent
+    loops6 = [n for n in cbf.node.body if isinstance(n, ast.While)]
+    if len(loops6) != 1:
+        raise AnalysisError("consumer loop of checkpoint_batches_forever not found (expected one top-level while)")
+    lp6 = loops6[0]
+    after6 = list(lp6.orelse) + cbf.node.body[cbf.node.body.index(lp6) + 1:]
+    producer_flags = {n.func.value.attr for n in ast.walk(pm.ckpt_fn.node) if isinstance(n, ast.Call) and isinstance(n.func, ast.Attribute) and n.func.attr == "is_set"
+                      and isinstance(n.func.value, ast.Attribute) and isinstance(n.func.value.value, ast.Name) and n.func.value.value.id == "self"}
+
+    def reach6(stmts, depth=0):
+        out = []
+        for st_ in stmts:
+            for c in ast.walk(st_):
+                if isinstance(c, ast.Call):
+                    out.append(c)
+                    if depth < 2 and isinstance(c.func, ast.Attribute) and isinstance(c.func.value, ast.Name) and c.func.value.id == "self" and c.func.attr in sc5.methods:
+                        out.extend(reach6(sc5.methods[c.func.attr].node.body, depth + 1))
+        return out
+
+    calls6 = reach6(after6)
+    raised = {c.func.value.attr for c in calls6 if isinstance(c.func, ast.Attribute) and c.func.attr == "set" and isinstance(c.func.value, ast.Attribute)}
+    drained = {c.func.value.attr for c in calls6 if isinstance(c.func, ast.Attribute) and c.func.attr in ("get_nowait", "get") and isinstance(c.func.value, ast.Attribute)}
+    # a drain written once over both queues: `for q in (self._overflow_queue, self._checkpoint_queue): ... q.get_nowait()`
+    alias6: dict[str, set[str]] = {}
+    for st_ in after6:
+        for lp_ in ast.walk(st_):
+            if isinstance(lp_, ast.For) and isinstance(lp_.target, ast.Name) and isinstance(lp_.iter, (ast.Tuple, ast.List)):
+                attrs_ = {e.attr for e in lp_.iter.elts if isinstance(e, ast.Attribute) and isinstance(e.value, ast.Name) and e.value.id == "self"}
+                if attrs_ and any(isinstance(c, ast.Call) and isinstance(c.func, ast.Attribute) and c.func.attr in ("get_nowait", "get") and isinstance(c.func.value, ast.Name)
+                                  and c.func.value.id == lp_.target.id for c in ast.walk(lp_)):
+                    drained |= attrs_
+    ck.analysed["producer_observed_flags"] = sorted(producer_flags)
+    ck.ob("R6.stop-refuses-later-producers", c_cbf, bool(raised & producer_flags),
+          f"when the consumer leaves its loop because it was told to stop it raises none of the flags a producer looks at ({sorted(producer_flags)}): a synchronous "
+          "checkpoint requested afterwards is enqueued for nobody and its caller waits for ever")
+    ck.ob("R6.stop-releases-queued-waiters", c_cbf, {"_checkpoint_queue", "_overflow_queue"} <= drained,
+          f"when the consumer leaves its loop because it was told to stop it drains {sorted(drained) or 'no queue'}: a synchronous caller already queued is never released")
     return ck
 
 
